@@ -603,6 +603,12 @@ def comment_order(ctx, rid, core, G):
                         if not node or not (lead or trail):
                             continue
                         ok = len(lead) == 1 and len(node) == 1 and len(trail) == 1 and lead[0] < node[0] < trail[0]
+                        if not ok:
+                            # out of order is a finding only when all three were found; a field emitted in a way the interpreter does not
+                            # follow (`result.extend(c.leading.iter().flat_map(..))`) is not "missing" (dropped fields: C09.R1)
+                            complete = len(lead) == 1 and len(node) == 1 and len(trail) == 1
+                            if not complete:
+                                ok = None
                         # a comment runs to the end of its line: whatever the loop emits after the trailing comment (a separator, a bracket)
                         # on the same line becomes part of the comment's text
                         if ok:
